@@ -310,6 +310,34 @@ func runCase(id int, c cpuCase, plan cpuPlan, skip int, progress func(cfg int, n
 				}
 			}
 			if plan.repeats > 1 {
+				// machines running CONCURRENTLY in the same process (goroutines): three fresh machines of this
+				// configuration plus one of another variant, each on its own freshly parsed program
+				conc := make([]runResult, 3)
+				var wg sync.WaitGroup
+				for gi := range conc {
+					wg.Add(1)
+					go func(gi int) {
+						defer wg.Done()
+						a, _ := risc.Parse(c.text)
+						conc[gi] = runOne(v, n, a, c, budget)
+					}(gi)
+				}
+				wg.Add(1)
+				go func() {
+					defer wg.Done()
+					a, _ := risc.Parse(c.text)
+					other := variants[(cfg+5)%len(variants)]
+					runOne(other, other.par[len(other.par)-1], a, c, budget)
+				}()
+				wg.Wait()
+				for _, res := range conc {
+					if res.String() != first.String() {
+						out = append(out, fmt.Sprintf("N %d %s %d repeat=concurrent %s", id, v.name, n, res))
+						break
+					}
+				}
+			}
+			if plan.repeats > 1 {
 				// isolation across DATA: the program object that has just been run on data D must behave on
 				// other data D' exactly like a freshly parsed one (state left inside the parsed program —
 				// forward slots — must not leak from one machine into the next)
